@@ -765,14 +765,14 @@ func (w *c08World) enumerate(thorough bool, fn func(c c08Case)) {
 			fn(c08Case{Fam: "seed", Val: i, Reader: rk})
 		}
 	}
-	// the big families: substitution (quick: blocks 2, 3 and the last one, seekable reader; thorough: all blocks,
+	// the big families: substitution (quick: blocks 2 and 3, seekable reader; thorough: all blocks,
 	// both readers), insertion in thorough
 	for _, rk := range readers {
 		if rk == "stream" && !thorough {
 			continue
 		}
 		for b := 0; b < nb; b++ {
-			if !thorough && !(b == 2 || b == 3 || b == nb-1) {
+			if !thorough && !(b == 2 || b == 3) {
 				continue
 			}
 			e := w.blocks[b].enc
@@ -913,7 +913,7 @@ func TestVerifC08(t *testing.T) {
 	}
 	r := ev.Start(t, "C08", "exploration")
 	r.SetBudget(75*time.Second, 13*time.Minute)
-	r.Rule("for every block of a real fixture chain (0/1/3 txs, with/without votes, NTS proofs, BTP digest, NSFilter): its own encoding; every truncation, single-byte deletion, duplication, adjacent swap, one trailing byte (256 values), same-offset splice with every other block, header/body cross-over (non-empty subset of {patch,normal,votes,digest} from every other block), every proper prefix of the votes / BTP digest / each transaction re-framed into the block; every single-byte substitution (position x 255 values; quick: blocks 2, 3 and the last, thorough: all blocks); thorough adds every single-byte insertion (position x 256); plus all byte strings of length <= 2 and the two upstream fuzz seeds; each through a seekable and a one-byte-at-a-time reader (substitution/insertion: seekable only in quick); non-trivial = distinct input actually submitted to BlockDataFactory.NewBlockDataFromReader")
+	r.Rule("for every block of a real fixture chain (0/1/3 txs, with/without votes, NTS proofs, BTP digest, NSFilter): its own encoding; every truncation, single-byte deletion, duplication, adjacent swap, one trailing byte (256 values), same-offset splice with every other block, header/body cross-over (non-empty subset of {patch,normal,votes,digest} from every other block), every proper prefix of the votes / BTP digest / each transaction re-framed into the block; every single-byte substitution (position x 255 values; quick: blocks 2 and 3, thorough: all blocks); thorough adds every single-byte insertion (position x 256); plus all byte strings of length <= 2 and the two upstream fuzz seeds; each through a seekable and a one-byte-at-a-time reader (substitution/insertion: seekable only in quick); non-trivial = distinct input actually submitted to BlockDataFactory.NewBlockDataFromReader")
 	r.Assume("fixture: real block.Manager / service transitions of test.Node (basic platform, MapDB), fixed secp256k1 keys, one BTP network (eth); only block version 2 exists in this tree")
 	r.Assume("arbitrary bytes are covered by the structured finite families listed in the rule, not by all 2^(8n) strings")
 
